@@ -51,6 +51,14 @@ def genDbStep (E : Ext) (db : signature.SignatureDatabase) (op : String) : signa
     let r := db.Remove (gOfWire (unhex t)) (gOfWire (unhex o)) (unhex d)
     if r.2.isNone then (r.1, "ok " ++ genDbBytes r.1) else (r.1, "err " ++ genDbBytes r.1)
   | ["Q", t, o, d] => (db, toString (db.BytesExists (gOfWire (unhex t)) (gOfWire (unhex o)) (unhex d)))
+  -- the other entry points of the same operations, as translated
+  | ["AS", t, o, d] =>
+    let r := db.AppendSignature E (gOfWire (unhex t)) ⟨gOfWire (unhex o), unhex d⟩
+    if r.2.isNone then (r.1, "ok " ++ genDbBytes r.1) else (r.1, "err " ++ genDbBytes r.1)
+  | ["RS", t, o, d] =>
+    let r := db.RemoveSignature (gOfWire (unhex t)) ⟨gOfWire (unhex o), unhex d⟩
+    if r.2.isNone then (r.1, "ok " ++ genDbBytes r.1) else (r.1, "err " ++ genDbBytes r.1)
+  | ["QS", t, o, d] => (db, toString (db.SigDataExists (gOfWire (unhex t)) ⟨gOfWire (unhex o), unhex d⟩))
   | ["X", t, sigs] =>
     let l : signature.SignatureList := ⟨gOfWire (unhex t), 0, 0, 0, [], gparseSigs sigs⟩
     (db, toString (db.Exists (gOfWire (unhex t)) l))
@@ -145,7 +153,7 @@ def genOpsStep (E : Ext) (st : GenOpsState) (op : String) : GenOpsState × Strin
     if o == "bad-op" then (⟨db', st.held⟩, o)
     else if kind == "L" || kind == "LM" || kind == "LH" || kind == "DH" then
       (⟨db', st.held ++ [some (db'.length - 1)]⟩, o)
-    else if kind == "R" && o.startsWith "ok " then
+    else if (kind == "R" || kind == "RS") && o.startsWith "ok " then
       match rest with
       | [t, ow, d] =>
         (match genDropIdx st.db (gOfWire (unhex t)) (gOfWire (unhex ow)) (unhex d) with
